@@ -80,7 +80,7 @@ claim('C06', 'proof',
       'One-level induction steps of the laws on the real `eq`/`ne`/`lt`/`gt` bodies for sequences of any length: eq on lists/tuples means same length and '
       'pairwise-equal children; symmetric, transitive; ne is its negation; lt on lists satisfies trichotomy (exactly one of lt/eq/gt), gt is lt swapped, '
       'transitivity and congruence with eq -- each discharged by running the real bodies two or three times on symbolic sequences whose children obey '
-      'the laws (induction hypothesis). `_type_order` ranks the type classes as documented and `lt` across classes follows it; `Ref.sym_eq` holds exactly between references to the very same object.',
+      'the laws (induction hypothesis). `_type_order` ranks the type classes as documented and `lt` across classes follows it; `Ref.sym_eq` holds exactly between references to the very same object; `Object.sym_lt` / `sym_eq` are the order / equality of the two attribute dictionaries for objects of the same class and the generic rule / unequal otherwise.',
       'Trusted: engine; A-INDUCTION (children relations are uninterpreted and assumed lawful one level down). Dict branches, hashing, user sym_eq/sym_lt '
       'overrides and sorting are covered by the bounded tier (all pairs/triples of a value pool).',
       'contract-based deductive verification (pyvc relational obligations) + bounded stand-in', 'DESIGN.md 5/C06')
